@@ -205,6 +205,7 @@ func check(c Case) error {
 	}
 	p := filepath.Join(vk.WorkDir(), "x.json")
 	defer os.Remove(p)
+	vk.StaleFile(p, 4*len(x.Sequence)+20000)
 	polyjson.Write(x, p)
 	return sameValue("polyjson.Read(polyjson.Write(x))", x, polyjson.Read(p))
 }
